@@ -663,9 +663,12 @@ impl<'a> Socket<'a> {
                 ipv4_repr.payload_len = udp_repr.header_len() + dhcp_repr.buffer_len();
                 emit(cx, (ipv4_repr, udp_repr, dhcp_repr))?;
 
-                // Exponential backoff: Double every 2 retries.
+                // Exponential backoff: Double every 2 retries. The exponent is capped so that
+                // a large `request_retries` cannot shift the timeout out of range (a shift by
+                // 64 or more panics in debug builds and wraps to a tiny timeout in release).
                 state.retry_at = cx.now()
-                    + (self.retry_config.initial_request_timeout << (state.retry as u32 / 2));
+                    + (self.retry_config.initial_request_timeout
+                        << (state.retry as u32 / 2).min(16));
                 state.retry += 1;
 
                 Ok(())
